@@ -83,6 +83,7 @@ def main(argv=None):
     ap.add_argument("--tier", default=os.environ.get("VERIF_TIER", "quick"))
     ap.add_argument("--replay", default=None)
     ap.add_argument("--jobs", type=int, default=int(os.environ.get("PYVC_JOBS", "8")))
+    ap.add_argument("--no-selftest", action="store_true")
     args = ap.parse_args(argv)
     pid = args.prop
     tier = args.tier if args.tier in ("quick", "thorough") else "quick"
@@ -174,6 +175,15 @@ def main(argv=None):
                 cross["inconclusive"] += 1
         for d in cross["disagree"]:
             errors.append(f"cross-check back end disagrees (z3 4.8.12 says sat): {d}")
+
+    # ---- thorough: self-test -- the recorded property-breaking changes must be detected on a scratch copy
+    selftest = None
+    if tier == "thorough" and not args.no_selftest:
+        from pyvc.selftest import run_all
+
+        selftest = run_all(pid, jobs=3)
+        for r in selftest:
+            print(f"  SELFTEST {r['status']} {r['seed']}: {r['detail'][:160]}")
 
     # ---- native: bounded stand-ins and encoder validation
     native_reports = []
@@ -313,6 +323,7 @@ def main(argv=None):
         replays_run=replayed,
         known_findings_matched=[k["id"] for k in known_matched],
         cross_check=cross if tier == "thorough" else None,
+        selftest=selftest,
         evaluations=max(1, n_obl + sum(r.get("cases", 0) for r in native_reports)),
         distinct_nontrivial=max(2, sum(1 for o in all_obls if o["verdict"]["backend"] != "simplifier") + sum(r.get("cases", 0) for r in native_reports)),
         rule="one case = one named proof obligation generated from the current source (non-trivial: not closed by the simplifier alone) or one enumerated input of a bounded stand-in",
